@@ -18,7 +18,7 @@ import (
 
 // A diode scenario: P producers x W writes each through diode.NewWriter of ring size N.
 //
-//	name = P<p>W<w>N<n>/<waiter|poller>/<normal|block1|block2|err1|err2>/<close|noclose|fatal|fatal2|closeearly>
+//	name = P<p>W<w>N<n>/<waiter|poller>/<normal|block1|block2|err1|err2>/<close|noclose|fatal|fatal2|closeearly|close2|closerace>
 type params struct {
 	P, W, N  int
 	Mode     string // waiter | poller
@@ -215,7 +215,7 @@ func (in *inst) Body() {
 			in.bump(6+uint64(pi)*16, "")
 		})
 	}
-	if p.End == "closeearly" {
+	if p.End == "closeearly" || p.End == "closerace" {
 		// Close racing with the Writes (a shutdown path that does not wait for the producers)
 		mcrt.GoNamed("closer", false, func() {
 			dw.Close()
@@ -229,13 +229,23 @@ func (in *inst) Body() {
 				return false
 			}
 		}
-		return p.End != "closeearly" || in.closeRet
+		return (p.End != "closeearly" && p.End != "closerace") || in.closeRet
 	})
 	switch p.End {
 	case "close":
 		dw.Close()
 		in.closeRet = true
 		in.bump(7, "")
+	case "close2", "closerace":
+		// Close is called again on a writer that is closed already (a deferred Close after an explicit one, a
+		// shutdown path after the racing one): "Close returns in every schedule" is about every call
+		in.closeRet = false
+		dw.Close()
+		if p.End == "close2" {
+			dw.Close()
+		}
+		in.closeRet = true
+		in.bump(9, "")
 	case "fatal", "fatal2":
 		// the Fatal path: the event is written through the diode, then the writer is closed, then os.Exit
 		m := "{\"level\":\"fatal\"}\n"
@@ -465,7 +475,7 @@ func (in *inst) Check(res *mcrt.Result) []explore.Violation {
 			add("C11", "", "a message vanished: written=%d delivered=%d alerts=%v still in the ring=%d (Close raced with the Writes; the ring of %d never overflowed)", len(in.written), len(in.delivered), in.alerts, rem, p.N)
 		}
 	}
-	if closed && !blockedRec && p.End != "closeearly" { // (the accounting clause is about a Close called after the last Write returned)
+	if closed && !blockedRec && p.End != "closeearly" && p.End != "closerace" { // (the accounting clause is about a Close called after the last Write returned)
 		if len(in.delivered)+sumAlerts < len(in.written) {
 			add("C11", holeSig, "lost silently: written=%d delivered=%d alerts=%v collisions=%d (read index %d, hole there=%v, %d published messages behind it)",
 				len(in.written), len(in.delivered), in.alerts, collisions, r, holeAtR, behind)
@@ -493,7 +503,7 @@ func (in *inst) Check(res *mcrt.Result) []explore.Violation {
 				add("C12", sig, "stuck: all Writes returned, no thread can run, but written=%d delivered=%d alerts=%v (consumer blocked on %v)",
 					len(in.written), len(in.delivered), in.alerts, res.BlockedOn)
 			}
-		case "close", "fatal", "fatal2", "closeearly":
+		case "close", "fatal", "fatal2", "closeearly", "close2", "closerace":
 			if res.Deadlock || (!in.closeRet && !res.Exited) {
 				add("C12", "", "Close did not return: deadlock=%v blocked=%v on %v", res.Deadlock, res.Blocked, res.BlockedOn)
 			}
